@@ -367,3 +367,78 @@ def twin_graph(mode: str = "tag", order: str = "plain-first", fan: int = 3, leve
         base = a * b                                # _in0 is met first
     outs[f"{len(outs):02d}_top"] = base
     return pt.make_dict_of_named_arrays(outs)
+
+
+# --------------------------------------------------------------------------
+# reconverging ladders through every edge class
+# --------------------------------------------------------------------------
+
+EDGE_LADDERS = ["bind", "index", "index-expr", "stack", "concatenate", "where", "shape", "call", "send",
+                "einsum", "remap", "csr", "container", "newaxis-basic"]
+
+
+def edge_ladder(cls: str, depth: int, name: str = "e"):
+    """A ladder of `depth` rungs whose rungs reconverge THROUGH the given edge class: every rung uses
+    the previous rung over (at least) two paths, one of them through an edge of class `cls`, so the
+    number of paths to the bottom is >= 2^depth while the number of nodes is linear in `depth`.
+    Returns one root (Array or DictOfNamedArrays); all built through the public API."""
+    pt = _pt()
+    from pytato.distributed.nodes import staple_distributed_send
+    from pytato.function import trace_call
+    if cls in ("index", "index-expr", "csr"):
+        a = pt.make_placeholder(name + "i", (4,), I64)
+        b = pt.make_placeholder(name + "f", (4,), F64)
+    elif cls == "shape":
+        a = pt.make_placeholder(name + "s0", (2, 2), I64)
+        b = a
+    else:
+        a = pt.make_placeholder(name, (4, 4), F64)
+        b = a
+    fdef = None
+    for k in range(depth):
+        if cls == "bind":
+            a, b = a + b, a * b
+        elif cls == "index":
+            a = a[a % 4]                               # operand AND (through a % 4) index of the same node
+        elif cls == "index-expr":
+            a = a[(a + 1) % 4]
+        elif cls == "stack":
+            a, b = pt.stack([a, b], axis=0)[0], pt.stack([b, a], axis=0)[1]
+        elif cls == "concatenate":
+            a, b = pt.concatenate([a, b], axis=0)[0:4], pt.concatenate([b, a], axis=0)[2:6]
+        elif cls == "where":
+            a, b = pt.where(a > b, a, b), pt.where(b > 1, b, a)
+        elif cls == "shape":
+            # array-valued shape components computed FROM the previous rung's arrays
+            a, b = (pt.make_placeholder(f"{name}sa{k}", (a[0, 0] + 1, b[1, 1] + 1), I64),
+                    pt.make_placeholder(f"{name}sb{k}", (b[0, 0] + 1, a[1, 1] + 1), I64))
+        elif cls == "call":
+            if fdef is None:
+                def f(p, q):
+                    return {"o1": p + q, "o2": p * q}
+                r = trace_call(f, a, b)
+                fdef = r["o1"]._container.function
+            else:
+                r = _call(fdef, a, b)
+            a, b = r["o1"], r["o2"]
+        elif cls == "send":
+            a, b = staple_distributed_send(a, dest_rank=1, comm_tag=1000 + k, stapled_to=b), a - b
+        elif cls == "einsum":
+            a, b = pt.einsum("ij,ij->ij", a, b), pt.einsum("ij,jk->ik", b, a)
+        elif cls == "remap":
+            a, b = (pt.roll(a, 1, 0) + pt.transpose(b, (1, 0)),
+                    pt.reshape(pt.reshape(a, (16,)), (4, 4)) * pt.roll(b, 2, 1))
+        elif cls == "csr":
+            rs = pt.concatenate([a, a[0:1]], axis=0)      # 5 row starts
+            b = pt.make_csr_matrix((4, 4), b, a % 4, rs) @ b
+            a = a[a % 4]
+        elif cls == "container":
+            d = pt.make_dict_of_named_arrays({"x": a, "y": b})
+            a, b = d["x"] * d["y"], d["y"] + d["x"]
+        elif cls == "newaxis-basic":
+            a, b = (a + b)[0:4, 0:4], (a * b)[::1, ::-1]
+        else:
+            raise ValueError(cls)
+    if cls in ("index", "index-expr"):
+        return a
+    return pt.make_dict_of_named_arrays({"a": a, "b": b})
